@@ -17,12 +17,15 @@ FAULT = "fault_enumeration"
 PROPS = {
     "C07": {
         "level": EXPL,
-        "plan": [{"engine": "pure", "timeout": {"quick": 600, "thorough": 3000}}],
+        "plan": [{"engine": "pure", "timeout": {"quick": 600, "thorough": 3000}}, {"engine": "shipsim2", "timeout": T_SIM}],
         "rule": "documents (top level an object) from a seeded grammar generator (depth<=6, width<=6, unique member names, "
                 "number literals as text, strings rich in brackets/quotes/escapes/multi-byte runes, empty containers) plus mutated "
                 "real SPINE datagrams; a case is distinct by its sorted feature set (empty-array, string-bracket-seq, num-big, ...); "
-                "oracles: token-level round-trip equality and equality of the wire form with the reference shape transform",
-        "floors": {"evaluations": 50000, "classes": 100},
+                "oracles: token-level round-trip equality and equality of the wire form with the reference shape transform; end to end (shipsim2): generated documents as SPINE "
+                "payloads between two real completed ShipConnections (WriteShipMessageWithPayload -> envelope splice -> FIFO transport -> HandleIncomingWebsocketMessage -> "
+                "pre-completion buffer or reader), 4-19 documents per direction and scenario, 'datagram' as member name on/below top level or only inside a string; what the peer's reader "
+                "got must parse into an equal document and none may be dropped",
+        "floors": {"evaluations": 50000, "classes": 100, "counters": {"shipsim2:e2e:payloads-compared": 5000}},
         "assumptions": ["lone surrogate escapes and duplicate member names are not generated", "documents below 64 KiB"],
     },
     "C16": {
